@@ -33,6 +33,19 @@ PROFILES = {
 }
 
 
+# element kinds the source watch asks for (empty on the recorded tree: the random stream is then untouched)
+FOCUS = set()
+
+
+def pick(r, options):
+    """r.choice(options), biased towards FOCUS when some option is in it"""
+    if FOCUS:
+        pref = [o for o in options if o in FOCUS]
+        if pref and r.random() < 0.6:
+            return r.choice(pref)
+    return r.choice(options)
+
+
 class Gen:
     def __init__(self, rng, profile='mixed', size='quick'):
         self.r = rng
@@ -163,7 +176,7 @@ class Gen:
             kinds += ['IUtilization', 'INbTasks', 'IIdle', 'ICost', 'IUtilization', 'INbTasks', 'ICost']
         if self.buffers:
             kinds += ['IMaxBuf', 'IMinBuf']
-        k = r.choice(kinds)
+        k = pick(r, kinds)
         bounds = None
         if k == 'IExpr':
             e = (k, self.ind_term())
@@ -205,7 +218,7 @@ class Gen:
             kinds += ['OMaxBufMax', 'OMinBufMax']
         if self.inds:
             kinds += ['OMinIndicator', 'OMaxIndicator', 'OMinIndicator']
-        k = r.choice(kinds)
+        k = pick(r, kinds)
         if k == 'ORaw':
             # (the incremental optimiser reads model[target]: the target must be a variable)
             o = (k, N(self.nexti), ('TV', (r.choice(['VStart', 'VEnd']), N(r.choice(list(self.tasks))))), Z(r.choice([1, 2, 3])), r.random() < 0.3)
@@ -328,7 +341,7 @@ class Gen:
         ts = list(self.tasks)
         e = None
         if fam == 'task':
-            k = r.choice(TASKCONS)
+            k = pick(r, TASKCONS)
             t = N(r.choice(ts))
             if k == 'CStartAt' or k == 'CEndAt':
                 e = (k, t, Z(r.choice([self.time(), self.time(), self.time(), self.time(), -3])))
@@ -371,7 +384,7 @@ class Gen:
                 sel = r.sample(opts, r.randint(1, len(opts)))
                 e = (k, [N(x) for x in sel], Z(r.randint(1, len(sel))), (r.choice(['PbMin', 'PbMax', 'PbExact']),))
         elif fam == 'fol':
-            k = r.choice(FOL + ['CForceApplyN'])
+            k = pick(r, FOL + ['CForceApplyN'])
             if k == 'CExpr':
                 e = (k, self.raw_form())
             elif k == 'CNot':
@@ -422,7 +435,7 @@ class Gen:
 
     def res_constraint(self):
         r = self.r
-        k = r.choice(self.pf.get('rescons', RESCONS))
+        k = pick(r, self.pf.get('rescons', RESCONS))
         if k in ('CSameWorkers', 'CDistinctWorkers'):
             if len(self.selects) < 2:
                 return None
